@@ -106,7 +106,11 @@ def UnitK.toMeter : UnitK → Rat
 
 /-! ## PROJ.4 -/
 
-def kv (k : String) (d : Dec) : Str := ('+' :: k.toList) ++ '=' :: renderDec d
+/-- a PROJ.4 token: key and (unless it is a bare flag) value text -/
+abbrev P4Tok := Str × Option Str
+
+def kv (k : String) (d : Dec) : P4Tok := (k.toList, some (renderDec d))
+def kt (k v : String) : P4Tok := (k.toList, some v.toList)
 
 def joinWith (sep : Str) : List Str → Str
   | [] => []
@@ -116,39 +120,54 @@ def joinWith (sep : Str) : List Str → Str
 def p4Kind : Kind → String
   | .geog => "longlat" | .merc => "merc" | .lcc => "lcc" | .aea => "aea" | .eqdc => "eqdc" | .tmerc => "tmerc"
 
-def p4Params (c : Crs) (st : Style) : List Str :=
+def p4Params (c : Crs) (st : Style) : List P4Tok :=
   let kk := if st.k0key then "k_0" else "k"
   let lat0 := (1, kv "lat_0" c.lat0)
   let lon0 := (4, kv "lon_0" c.lon0)
   let k0 := (5, kv kk c.k0)
   let x0 := (6, kv "x_0" c.feM)
   let y0 := (7, kv "y_0" c.fnM)
-  let all : List (Nat × Str) := match c.kind with
+  let all : List (Nat × P4Tok) := match c.kind with
     | .geog => []
     | .merc => [lon0, k0, x0, y0]
     | .tmerc => [lat0, lon0, k0, x0, y0]
     | _ => [(2, kv "lat_1" c.lat1), (3, kv "lat_2" c.lat2), lat0, lon0, x0, y0]
   (all.filter fun p => p.1 ≠ st.leaveOut).map (·.2)
 
-def p4Datum (c : Crs) : List Str :=
+def p4Datum (c : Crs) : List P4Tok :=
   match c.datum with
-  | .wgs84 => [s "+datum=WGS84"]
-  | .nad83 => [s "+datum=NAD83"]
+  | .wgs84 => [kt "datum" "WGS84"]
+  | .nad83 => [kt "datum" "NAD83"]
   | .custom => match c.towgs with
-    | some ds => [s "+towgs84=" ++ joinWith [','] (ds.map renderDec)]
+    | some ds => [(s "towgs84", some (joinWith [','] (ds.map renderDec)))]
     | none => []
 
-def p4Unit (c : Crs) : List Str :=
+def p4Unit (c : Crs) : List P4Tok :=
   if c.kind = .geog then [] else
   match c.unit with
-  | .metre => [s "+units=m"]
-  | .foot => [s "+units=ft"]
+  | .metre => [kt "units" "m"]
+  | .foot => [kt "units" "ft"]
   | .usFootDec => [kv "to_meter" usFootDecQ]
-  | .usFoot => [s "+units=us-ft"]
+  | .usFoot => [kt "units" "us-ft"]
 
-def toProj4 (c : Crs) (st : Style) : Str :=
-  joinWith [' '] ((if st.title then [s "+title=a b (c/d)"] else []) ++ [s "+proj=" ++ (p4Kind c.kind).toList] ++ p4Params c st ++
-    [kv "a" c.a, kv "rf" c.rf] ++ p4Datum c ++ p4Unit c ++ [s "+no_defs"])
+/-- the PROJ.4 definition as a token list -/
+def toProj4Toks (c : Crs) (st : Style) : List P4Tok :=
+  (if st.title then [kt "title" "a b (c/d)"] else []) ++ [kt "proj" (p4Kind c.kind)] ++ p4Params c st ++
+    [kv "a" c.a, kv "rf" c.rf] ++ p4Datum c ++ p4Unit c ++ [(s "no_defs", none)]
+
+/-- text of one token: `+key=value` or `+key` -/
+def p4Body (t : P4Tok) : Str := t.1 ++ (match t.2 with | some v => '=' :: v | none => [])
+
+/-- tokens separated by one blank -/
+def renderP4 : List P4Tok → Str
+  | [] => []
+  | [t] => '+' :: p4Body t
+  | t :: r => '+' :: (p4Body t ++ ' ' :: renderP4 r)
+
+def toProj4 (c : Crs) (st : Style) : Str := renderP4 (toProj4Toks c st)
+
+/-- what the token-level parser is given: key and value text (`true` for a bare flag) -/
+def p4KV (t : P4Tok) : Str × Str := (t.1, t.2.getD (s "true"))
 
 /-! ## OGC WKT -/
 
@@ -319,6 +338,12 @@ def expectedParams (ds : List Rat) : Nat × List Rat :=
     else (pjd3Param, ds)
   | _ => (0, ds)
 
+/-- datum type and (for 3/7-parameter datums) the terms a transformer reads -/
+def expDatum (c : Crs) : Nat × List Rat :=
+  match c.datum, c.towgs with
+  | .custom, some ds => expectedParams (ds.map Dec.toRat)
+  | _, _ => (pjdWGS84, [])
+
 /-- the intended reading of a description, in exact numbers -/
 def expected (c : Crs) : View XR :=
   let a := c.a.toRat
@@ -328,9 +353,6 @@ def expected (c : Crs) : View XR :=
   let ep2 := (a * a - b * b) / (b * b)
   let deg (d : Dec) : XR := some (d.toRat * deg2radQ)
   let conic := c.kind = .lcc || c.kind = .aea || c.kind = .eqdc
-  let (dt, dp) : Nat × List Rat := match c.datum, c.towgs with
-    | .custom, some ds => expectedParams (ds.map Dec.toRat)
-    | _, _ => (pjdWGS84, [])
   { proj := some (p4FuncName c.kind),
     lat0 := if conic || c.kind = .tmerc then deg c.lat0 else none,
     lat1 := if conic then deg c.lat1 else none,
@@ -343,21 +365,48 @@ def expected (c : Crs) : View XR :=
     a := some a, b := some b, rf := some rf, es := some es, ep2 := some ep2, sphere := false,
     toMeter := if c.kind = .geog then some 1 else some c.unit.toMeter,
     axis := s "enu", fromGreenwich := none,
-    datumType := dt, datumParams := dp.map some,
+    datumType := (expDatum c).1, datumParams := (expDatum c).2.map some,
     datumA := some a, datumB := some b, datumEs := some es, datumEp2 := some ep2 }
+
+/-- the datum is stated consistently: a custom datum has a 3- or 7-term shift whose translation is not
+zero (no stated tie to WGS84 is the known finding `noshift`), a named datum has none -/
+def datumWF (c : Crs) : Bool :=
+  match c.datum, c.towgs with
+  | .custom, some [x, y, z] => x.toRat ≠ 0 || y.toRat ≠ 0 || z.toRat ≠ 0
+  | .custom, some [x, y, z, _, _, _, _] => x.toRat ≠ 0 || y.toRat ≠ 0 || z.toRat ≠ 0
+  | .custom, _ => false
+  | _, none => true
+  | _, some _ => false
 
 /-- the description is meaningful and is written exactly in both notations -/
 def wellFormed (c : Crs) : Bool :=
   decide (0 < c.a.toRat) && decide (1 < c.rf.toRat) && decide (c.rf.toRat ≤ c.a.toRat * 1000000000)
   && c.unit != .usFoot
   && (c.kind = .geog || (decide (c.feM.toRat = c.fe.toRat * c.unit.toMeter) && decide (c.fnM.toRat = c.fn.toRat * c.unit.toMeter)))
-  && (match c.datum, c.towgs with
-      | .custom, some [x, y, z] => x.toRat ≠ 0 || y.toRat ≠ 0 || z.toRat ≠ 0
-      | .custom, some [x, y, z, _, _, _, _] => x.toRat ≠ 0 || y.toRat ≠ 0 || z.toRat ≠ 0
-      | .custom, _ => false       -- no stated tie to WGS84: see the known finding `noshift`
-      | _, none => true
-      | _, some _ => false)
+  && datumWF c
 
+
+
+/-! ## the numeral contract (strconv) -/
+
+/-- characters of a decimal numeral as the renderers write it -/
+def numCh (c : Char) : Bool := ('0' ≤ c && c ≤ '9') || c = '-' || c = '.'
+
+/-- `strconv.ParseFloat` reads the text `renderDec d` as the decimal `d`, and that text is a non-empty
+token over the numeral alphabet.  Decidable; evaluated by the judge for every numeral of every case. -/
+def numeralOK (d : Dec) : Bool :=
+  !(renderDec d).isEmpty && (renderDec d).all numCh &&
+  (match parseFloat (α := XR) (renderDec d) with
+   | .ok v => v == some d.toRat
+   | .error _ => false)
+
+/-- every numeral that occurs in the two notations of `c` -/
+def decsOf (c : Crs) : List Dec :=
+  [c.lat0, c.lat1, c.lat2, c.lon0, c.k0, c.fe, c.fn, c.feM, c.fnM, c.a, c.rf] ++ c.towgs.getD [] ++
+  [usFootDecQ, degDec, ⟨0, 0⟩, ⟨0, 1⟩, ⟨1, 0⟩, ⟨3048, 4⟩]
+
+/-- the numeral contract for the description `c` -/
+def numeralsRead (c : Crs) : Bool := (decsOf c).all numeralOK
 
 /-! ## exact agreement (decidable; what `C20_parse_agree` is about) -/
 
@@ -447,8 +496,8 @@ def namedDatumTexts (key : String) (projected : Bool) : Option (Str × Str) := d
   if rf = 0 then none else
   let c : Crs := { sample (if projected then .tmerc else .geog) .metre 0 with
     a := ratToDec e.a 6, rf := ratToDec rf 25, towgs := d.towgs84.map (·.map fun q => ratToDec q 12), datum := .custom, dname := 0 }
-  let p4 := joinWith [' '] ([s "+proj=" ++ (p4Kind c.kind).toList] ++ p4Params c {} ++ [s "+datum=" ++ key.toList] ++
-    (if projected then [s "+units=m"] else []) ++ [s "+no_defs"])
+  let p4 := renderP4 ([kt "proj" (p4Kind c.kind)] ++ p4Params c {} ++ [kt "datum" key] ++
+    (if projected then [kt "units" "m"] else []) ++ [(s "no_defs", none)])
   pure (p4, toWkt { c with towgs := match c.towgs with | some [] => none | x => x } {})
 
 /-! ## tolerances for the compiled code (numeric part of the property) -/
